@@ -322,6 +322,14 @@ func mBufRead(b *bufio.Reader, p []byte) (int, error) {
 //
 //verif:model io.Copy
 func mCopy(dst io.Writer, src io.Reader) (int64, error) {
+	if h, isHash := dst.(*wHash); isHash { // hashing a file: the digest is that of the file that was opened
+		if f, isFile := src.(*os.File); isFile {
+			if d := wOpenedDigest[f]; d != nil {
+				h.sum = d
+			}
+		}
+		return 0, nil
+	}
 	for {
 		chunk, ok := wReadChunk(src)
 		if !ok {
@@ -402,7 +410,13 @@ func (r *wRunner) Stdout() io.ReadCloser               { return r.p.stdout }
 func (r *wRunner) Stderr() io.ReadCloser               { return r.p.stderr }
 func (r *wRunner) Name() string                        { return "wplugin" }
 func (r *wRunner) Wait(ctx context.Context) error      { <-r.p.dead; return nil }
-func (r *wRunner) Kill(ctx context.Context) error      { r.p.killed++; r.p.die(); return nil }
+func (r *wRunner) Kill(ctx context.Context) error {
+	if !r.p.isDead { // signalling a process that has already exited kills nothing
+		r.p.killed++
+		r.p.die()
+	}
+	return nil
+}
 func (r *wRunner) ID() string                          { return fmt.Sprintf("%d", r.p.pid) }
 func (r *wRunner) PluginToHost(n, a string) (string, string, error) {
 	if r.xlate {
@@ -432,9 +446,28 @@ var wLastCmdEnv []string // what the last started command was given
 var wLastCmdStdin io.Reader
 var wProcOfOS = map[*os.Process]*wProc{}
 
+// what the launcher does to the client-certificate variable on its way to the child: 0 delivered as built,
+// 1 damaged (set, but no longer a parsable certificate: e.g. a line-oriented launcher cut the PEM at its first
+// newline), 2 dropped (a plugin that does not take part in AutoMTLS)
+var wCertMangle int
+
+func wChildEnv(k, v string) (string, bool) {
+	if k == "PLUGIN_CLIENT_CERT" {
+		switch wCertMangle {
+		case 1:
+			return "-----BEGIN CERTIFICATE-----", true
+		case 2:
+			return "", false
+		}
+	}
+	return v, true
+}
+
 // wCommand makes an *exec.Cmd whose start launches p
+var wCmdPath = "/bin/wplugin"
+
 func wCommand(p *wProc) *exec.Cmd {
-	c := &exec.Cmd{Path: "/bin/wplugin", Args: []string{"/bin/wplugin"}}
+	c := &exec.Cmd{Path: wCmdPath, Args: []string{wCmdPath}}
 	wCmdG[c] = &wCmdGhost{p: p}
 	return c
 }
@@ -481,7 +514,9 @@ func mCmdStart(c *exec.Cmd) error {
 	for _, kv := range c.Env { // the child's environment is what the host built (last duplicate wins)
 		k, v, _ := strings.Cut(kv, "=")
 		if vIsConcrete(k) {
-			vSetenvProc(g.p.id, k, v)
+			if v, keep := wChildEnv(k, v); keep {
+				vSetenvProc(g.p.id, k, v)
+			}
 		}
 	}
 	c.Process = new(os.Process)
